@@ -9,6 +9,7 @@ import Prov.Xml
 import Prov.XmlSpec
 import Prov.ProvN
 import Prov.ProvNSpec
+import Prov.Graph
 
 open Lean
 namespace Driver
